@@ -8,10 +8,6 @@ Import ListNotations.
 Open Scope string_scope.
 Open Scope list_scope.
 
-Definition text := list N.  (* code points *)
-
-Definition s2t (s : string) : text := map (fun c => N_of_ascii c) (list_ascii_of_string s).
-
 Inductive tok :=
 | TName (s : ident)
 | TLit (c : const) (t : text)     (* a literal, with the exact text emitted for it *)
